@@ -447,6 +447,9 @@ struct Star {
     client_drop_at: Vec<(usize, u64)>,
     /// (conn, tick) transport removes the server connection
     removal_at: Vec<(usize, u64)>,
+    /// lazy "transport": a connection the server disconnected stays in the server's table (disconnected,
+    /// not yet removed) for the rest of the run; it must not affect any other client
+    lazy_removal: bool,
     captured: Vec<(usize, Vec<u8>)>,
     aborted: bool,
     churn: bool,
@@ -626,7 +629,11 @@ impl Star {
             }
             1 => {
                 self.sim.server.disconnect(id);
-                self.removal_at.push((conn, now + self.r.below(4)));
+                let delay = if self.lazy_removal { 10_000_000 } else { self.r.below(4) };
+                if self.lazy_removal {
+                    out.count("left.server_disconnect_never_removed");
+                }
+                self.removal_at.push((conn, now + delay));
                 self.client_drop_at.push((conn, now + self.r.below(8)));
                 out.count("left.server_disconnect");
             }
@@ -993,12 +1000,14 @@ pub fn one_run(ctx: &Ctx, out: &mut Outcome, run_seed: u64) {
         departed_ids: Vec::new(),
         client_drop_at: Vec::new(),
         removal_at: Vec::new(),
+        lazy_removal: false,
         captured: Vec::new(),
         aborted: false,
         churn: r.chance(4, 5),
     };
     let retx_before = out.get("retransmissions");
     let bo_before = out.get("broadcast_obligations_checked");
+    st.lazy_removal = st.r.chance(1, 3);
     let be_before = out.get("broadcast_except_obligations_checked");
     let fault_ticks = r.range(15, if ctx.thorough() { 150 } else { 60 });
     let stall_at = r.range(2, 10);
